@@ -17,7 +17,7 @@ fn count_section_residues(ctx: &Ctx, rb: &ReadBack) {
 }
 
 /// S1: one pad blob sweeping all 255 aligned residues x 6 prototypes x npoints {0,1,3}
-pub fn s1(ctx: &Ctx) {
+pub fn gen_s1(ctx: &Ctx) -> (Program, usize) {
     let pad4 = ctx.pick("pad4", 255);
     let pi = ctx.pick("proto", 6);
     let n = [0usize, 1, 3][ctx.pick("npoints", 3)];
@@ -27,6 +27,11 @@ pub fn s1(ctx: &Ctx) {
         ops: vec![Op::Blob(pattern(pad4 as u64, 4 * pad4)), Op::Cloud(cloud(protos[pi].1.clone(), n, 7 + pad4 as u64))],
         ..Default::default()
     };
+    (p, n)
+}
+
+pub fn s1(ctx: &Ctx) {
+    let (p, n) = gen_s1(ctx);
     if let Some((_, rb)) = roundtrip(ctx, &p, P) {
         count_section_residues(ctx, &rb);
         if n > 0 {
@@ -76,7 +81,7 @@ pub fn s3(ctx: &Ctx) {
 
 /// S4: hooked capacity c in 1..=9 x npoints 0..=3c+1 x every catalogue type as 4th record
 /// (thorough: also as the type of X, Y and Z)
-pub fn s4(ctx: &Ctx) {
+pub fn gen_s4(ctx: &Ctx) -> (Program, usize, usize, usize) {
     let types = cat::types();
     let ti = ctx.pick("type", types.len());
     let c = 1 + ctx.pick("cap", 9);
@@ -94,6 +99,11 @@ pub fn s4(ctx: &Ctx) {
     cl.cap = Some(c);
     let p = Program { guid: "g".into(), ops: vec![Op::Cloud(cl)], ..Default::default() };
     let w = ty.bits() as usize;
+    (p, w, c, n)
+}
+
+pub fn s4(ctx: &Ctx) {
+    let (p, w, c, n) = gen_s4(ctx);
     if roundtrip(ctx, &p, P).is_some() {
         if n > c {
             // the first packet is cut after c values: partial-byte phase at the cut
